@@ -4,6 +4,7 @@ import re
 from gsa import cmprules, facts, ir, paths
 from gsa.facts import Unit, rel, AnalysisBroken
 from gsa.report import Check
+from rules import c09
 
 MATCH = ['src/Bitmap_cubical_complex/']
 UNITS = [Unit('misc_tbb', 'misc_pat.cpp', MATCH, defines=['-DGUDHI_USE_TBB'], no_inst=True),
@@ -294,6 +295,11 @@ def run(tier, replay=None):
     run_fill_values(chk, F)
     run_coboundary_bounds(chk, F)
     run_reader_bounds(chk, F)
+    _by = {}
+    for _f in F.functions:
+        if _f.get('inst') in (0, 2) and _f.get('body') is not None and _f['file'].startswith(facts.REPO):
+            _by.setdefault(_f.get('cls') or _f.get('clsname') or '-', []).append(_f)
+    c09.run_assert_purity(chk, F, by=_by, min_count=10)
     chk.assumptions += ['filtration values obey trichotomy (no NaN), as the property states',
                         'clang 14 parser; both preprocessor configurations parsed']
     return chk
